@@ -18,7 +18,7 @@ from pathlib import Path
 
 VERIF = Path(__file__).resolve().parent.parent
 SPEC = VERIF / "spec"
-REPO = Path("/repo")
+REPO = Path(os.environ.get("VERIF_REPO", "/repo"))
 WORKROOT = VERIF / ".work"
 GUARD = "XMLSCHEMA_VERIF_TRACE"
 NCPU = min(16, os.cpu_count() or 1)
